@@ -25,6 +25,10 @@ LEVEL_TEXT = (
     "equations and Jacobian are evaluated at 4 states x 2 parameter settings and compared with the numeric right-hand "
     "side and its extrapolated finite-difference derivative; each model is simulated with and without Jacobian for "
     "LSODA, Radau, BDF on a stiff setting with Jacobian calls counted."
+    " Added: user-written rate laws with statements and branches, an untranslatable rate law (conversion "
+    "raises, simulator falls back with a warning), measured / zero coefficients, conversion histories in one "
+    "process, and every sequence of <= 3 (thorough 4) simulator operations and model edits with the "
+    "integrator's Jacobian compared against finite differences of the model's current right-hand side. "
 )
 LEVEL_NOTE = "trusted: numeric Model RHS (C01), scipy integrators, Richardson-extrapolated central differences (error ~1e-9 relative on these rational functions)"
 RULE = (
